@@ -549,6 +549,10 @@ def gen_case_set_history(rng, tier):
     gz = (0, 65535)
     consts = {k: rng.randint(0, 250) for k in KEYS}
     consts['kfoo'] = 201
+    # constants that differ from an enumeration key in letter case only: keys and labels are case sensitive, so they are
+    # plain numbers for the numeric alternative and no keys
+    for k in KEYS:
+        consts[rng.choice([k.upper(), k.capitalize()])] = rng.randint(0, 250)
     al = Alloc()
     hi_kind = rng.choice(['enumeration', 'enumeration', 'numeric_enumeration', 'numeric_bytecode', 'address'])
     hy, hm = gen_alt(rng, al, hi_kind, regs, de, gz, 'hi', consts)
@@ -567,6 +571,9 @@ def gen_case_set_history(rng, tier):
     variants_m = [{'opcode': {'v': 0x31, 'n': 8, 'little': de == 'little'}, 'count': 1, 'sets': {'sets': sets_m}}]
 
     def only_low():
+        if hi_kind == 'enumeration' and rng.random() < 0.6:
+            k = rng.choice([c for c in consts if c.lower() in KEYS and c not in KEYS])
+            return {'f': 'plain', 'e': ('label', k)}, k
         return rng.choice([({'f': 'plain', 'e': ('num', 200)}, '200'), ({'f': 'plain', 'e': ('label', 'kfoo')}, 'kfoo'),
                            ({'f': 'plain', 'e': ('bin', '+', ('num', 199), ('num', 1))}, '199 + 1')])
 
